@@ -15,6 +15,12 @@ Tie to the source:
   * a class body may bind an EXISTING state object again ("m": "ref"):  again = work  (the
     object the class namespace holds at that line) or  retry = C0.work  (the object an earlier
     class holds): __set_name__ must judge every binding, not only the first one of an object.
+  * the decorator `state` is applied in every legal spelling (deco[3] of a "state" entry): the
+    factory  @state(first=True) / k = state(first=True)(f)  (no deco[3]),  bare  @state  ("bare"),
+    function and options in ONE call  k = state(f, first=True)  ("call"),  k = state(f=f, ..)
+    ("callkw")  and  @partial(state, first=True)  ("partial", functools.partial: also one call).
+    The last four go through the `return _State(f, first, must_finish)` path of state(); the
+    model has them as DStateCall.  A mark must count whichever spelling carries it.
 """
 import itertools
 import json
@@ -119,13 +125,37 @@ def render_deco(deco):
     if mf:
         kw.append("must_finish=True")
     if deco[0] == "state":
+        sp = spelling(deco)
+        if sp == "partial":
+            return "partial(%s)" % ", ".join(["state"] + kw)
         if not kw:
-            return "state" if (len(deco) > 3 and deco[3] == "bare") else "state()"
+            return "state" if sp == "bare" else "state()"
         return "state(%s)" % ", ".join(kw)
     return "timed_state(%s)" % ", ".join(kw)
 
 
+def spelling(deco):
+    """How a "state" decorator is written: None = factory, "bare", "call", "callkw", "partial"."""
+    return deco[3] if (deco[0] == "state" and len(deco) > 3) else None
+
+
+def direct_call(deco):
+    """The spellings that hand state() the function and the options in one call."""
+    return spelling(deco) in ("call", "callkw")
+
+
+def goes_through_call_path(deco):
+    """state() receives the function itself (f is not None): bare @state, the plain call, partial."""
+    sp = spelling(deco)
+    if sp == "bare":
+        return not (deco[1] or deco[2])     # "bare" with options is rendered as the factory
+    return sp in ("call", "callkw", "partial")
+
+
 def apply_deco(deco, expr):
+    if direct_call(deco):       # state(f, first=True, ..) / state(f=f, first=True, ..)
+        kw = (["first=True"] if deco[1] else []) + (["must_finish=True"] if deco[2] else [])
+        return "state(%s)" % ", ".join([("f=" if spelling(deco) == "callkw" else "") + expr] + kw)
     d = render_deco(deco)
     return "%s(%s)" % (d, expr)
 
@@ -164,7 +194,12 @@ def render_class(i, c):
     head = "class C%d(%s):" % (i, bases) if bases else "class C%d:" % i
     for j, e in enumerate(c["body"]):
         if e["m"] == "state":
-            if e.get("form", "def") == "def":
+            if e.get("form", "def") == "def" and direct_call(e["deco"]):
+                #   def go(self): ..
+                #   go = state(go, first=True)
+                body += render_func(e, 4)
+                body.append("    %s = %s" % (e["fname"], apply_deco(e["deco"], e["fname"])))
+            elif e.get("form", "def") == "def":
                 body.append("    @" + render_deco(e["deco"]))
                 body += render_func(e, 4)
             else:
@@ -190,7 +225,8 @@ def render(spec):
 
 
 def source_text(spec):
-    return ("from magicbot.state_machine import StateMachine, state, timed_state, default_state\n\n"
+    return ("from functools import partial\n"
+            "from magicbot.state_machine import StateMachine, state, timed_state, default_state\n\n"
             + "\n".join(render(spec)))
 
 
@@ -226,7 +262,8 @@ def run_case(spec):
     "insts": [...], "adapters": [[cls, key, [vals]]], "harness_ok": bool}."""
     sm, mt = impl()
     SM = sm.StateMachine
-    ns = {"__name__": "c12case", "StateMachine": SM, "state": sm.state,
+    import functools
+    ns = {"__name__": "c12case", "StateMachine": SM, "state": sm.state, "partial": functools.partial,
           "timed_state": sm.timed_state, "default_state": sm.default_state}
     obs = {"def_err": None, "extras": [], "targets": [], "insts": [], "adapters": [], "harness_ok": True}
     classes = []
@@ -534,6 +571,7 @@ def gen_fixed(sm, ctx):
         {"bases": [0], "body": [st("n"), st("a", deco=FIRST, doc="C2.a")]},
         {"bases": [1, 2], "body": [st("z_duration"), st("k", deco=["default"])]}]}))
     cases += gen_rebinding_fixed()
+    cases += gen_spelling_fixed()
     return cases
 
 
@@ -603,6 +641,56 @@ def gen_rebinding_fixed():
     return cases
 
 
+CALL_SPELLINGS = ["call", "callkw", "partial"]
+
+
+def gen_spelling_fixed():
+    """The options of `state` given together with the function in ONE call (k = state(f, first=True),
+    state(f=f, ..), @partial(state, ..)): the mark must count as it does for @state(first=True).
+    Per spelling x form x (first, must_finish): the only first state spelled that way; a second
+    state next to a factory-spelled first one (same body, subclass, mix-in); an override of the
+    inherited first state; plus the definition-time faults through that spelling."""
+    cases = []
+
+    def add(spec):
+        cases.append(("spelling", spec))
+    sig2 = [["self", "PosOrKw", False], ["state_tm", "PosOrKw", False]]
+    for sp in CALL_SPELLINGS:
+        for form in ("def", "assign"):
+            for first in (True, False):
+                for mf in (False, True):
+                    go = lambda doc="goes": st("go", params=sig2, deco=["state", first, mf, sp], doc=doc, form=form)
+                    a_first = st("a", deco=FIRST, doc="A")
+                    # the machine's only candidate for the first state
+                    add(one_class([go(), st("b", deco=["state", False, False, "bare"])]))
+                    add(one_class([st("d", deco=["default"]), st("t", deco=["timed", False, True, "1.0"]), go()]))
+                    # next to a first state written with the factory: same body, subclass, mix-in, diamond
+                    add(one_class([a_first, go()]))
+                    add(one_class([go(), a_first]))
+                    add({"classes": [{"bases": ["SM"], "body": [a_first]}, {"bases": [0], "body": [go()]}]})
+                    add({"classes": [{"bases": ["SM"], "body": [st("x")]}, {"bases": ["SM"], "body": [go()]},
+                                     {"bases": [0, 1], "body": []}]})
+                    add({"classes": [{"bases": ["SM"], "body": [a_first]}, {"bases": ["SM"], "body": [go()]},
+                                     {"bases": [0, 1], "body": [st("y", doc="Y")]}]})
+                    add({"classes": [{"bases": ["SM"], "body": [a_first]}, {"bases": [0], "body": [st("m")]},
+                                     {"bases": [0], "body": [go()]}, {"bases": [1, 2], "body": []}]})
+                    # an inherited first state (factory) overridden through the call spelling, and back
+                    add({"classes": [{"bases": ["SM"], "body": [st("go", deco=FIRST, doc="base go"), st("b")]},
+                                     {"bases": [0], "body": [go(doc=None)]}]})
+                    add({"classes": [{"bases": ["SM"], "body": [go(), st("b")]},
+                                     {"bases": [0], "body": [st("go", deco=["state", not first, False], doc="derived go")]}]})
+                    # two states, both through the call spelling
+                    add(one_class([go(), st("h", deco=["state", True, mf, sp], form=form)]))
+            # definition-time faults reach _State.__init__ through this spelling as well
+            add(one_class([st("a", deco=FIRST), st("done", deco=["state", True, False, sp], form="assign", attr="done")]))
+            add(one_class([st("a", deco=FIRST), st("go", params=[["tm", "PosOrKw", False]], deco=["state", False, True, sp], form=form)]))
+            add(one_class([st("a", deco=FIRST), st("go", params=[["self", "PosOrKw", False], ["kw", "VarKw", False]],
+                                                   deco=["state", True, False, sp], form=form)]))
+            add(one_class([st("go", deco=["state", True, False, sp], form=form)], bases=()))
+            add(one_class([st("a", deco=FIRST), st("go", deco=["state", True, False, sp], form="assign", attr="other")]))
+    return cases
+
+
 def add_rebinding(rng, spec):
     """Insert 1-2 second bindings of objects that exist at that point into a generated
     hierarchy.  Returns the tag of what was inserted (or None)."""
@@ -669,6 +757,8 @@ def gen_state(rng, name, i, first, faulty=None):
         deco = ["state", first, rng.random() < 0.3]
         if not first and not deco[2] and rng.random() < 0.5:
             deco.append("bare")
+        elif rng.random() < 0.35:       # function and options in one call
+            deco.append(rng.choice(CALL_SPELLINGS))
     doc = None
     r = rng.random()
     if r < 0.45:
@@ -796,7 +886,7 @@ def gen_cases(sm, ctx):
     else:
         for _ in range(400):
             cases.append((["sig-len3-sample"], sig_case(with_defaults(r, r.choice(sig3)))))
-    total = 40000 if thorough else 3000
+    total = 40000 if thorough else 3300
     while len(cases) < total:
         tags, c = gen_hier(r)
         if r.random() < 0.2:
@@ -819,7 +909,9 @@ def coq_deco(d):
     b = lambda x: "true" if x else "false"
     if d[0] == "default":
         return "DDefault"
-    return "(%s %s %s)" % ("DState" if d[0] == "state" else "DTimed", b(d[1]), b(d[2]))
+    if d[0] == "state":
+        return "(%s %s %s)" % ("DStateCall" if goes_through_call_path(d) else "DState", b(d[1]), b(d[2]))
+    return "(DTimed %s %s)" % (b(d[1]), b(d[2]))
 
 
 def coq_entry(i, e):
@@ -987,6 +1079,11 @@ Print Assumptions impl_reserved_rejected.
         for t in tags:
             ctx.count("gen=%s" % t)
         ctx.count("classes=%d" % len(spec["classes"]))
+        for c_ in spec["classes"]:
+            for e_ in c_["body"]:
+                if e_["m"] == "state" and e_["deco"][0] == "state":
+                    ctx.count("state-spelling=%s%s" % (spelling(e_["deco"]) or "factory",
+                                                       ":first" if e_["deco"][1] else ""))
         if obs["def_err"] is not None:
             ctx.count("outcome=definition:%s" % CODE_NAMES.get(obs["def_err"][1]))
         for inst_ in obs["insts"]:
@@ -1023,7 +1120,8 @@ Print Assumptions impl_reserved_rejected.
         "rule": "class definitions generated as source text: every reserved name x 3 decorators, near-miss names, "
                 "all 16 legal ordered parameter subsets, kind x position<=3 x 6 names, all signatures of length <=2 "
                 "(<=3 in thorough) over 5 kinds x 6 names, random hierarchies of 1-4 classes (single/linear/diamond/"
-                "mix-in/plain mix-in) with overriding state-by-state, by plain method/value and back; second bindings "
+                "mix-in/plain mix-in) with overriding state-by-state, by plain method/value and back; the decorator state in "
+                "every spelling (factory, bare, state(f, first=..), state(f=f, ..), partial(state, ..)); second bindings "
                 "of existing state objects (same body, derived class, other machine, plain class; own/new name); non-trivial = "
                 "distinct definitions that are rejected somewhere or override an inherited attribute",
         "exhaustive": False,
